@@ -229,6 +229,9 @@ pub const SEEDS: &[(&str, &str)] = &[
     ("std.length(std.setUnion([@@], []))", "1"),
     ("std.length(std.setDiff([@@], []))", "1"),
     ("std.length(std.setInter([@@], []))", "0"),
+    ("std.objectFields(std.mergePatch({a: @@, b: 1}, {a: null}))", "[\"b\"]"),
+    ("std.length(std.mergePatch({}, {a: {b: @@}}))", "1"),
+    ("std.mergePatch({a: 1}, {b: @@}).a", "1"),
     ("[x for x in [@@, 2]][1]", "2"),
     ("[1 for x in [@@, @@]]", "[1, 1]"),
     ("std.length({[k]: @@ for k in [\"a\", \"b\"]})", "2"),
@@ -412,8 +415,47 @@ pub fn run(ctx: &Ctx) -> i32 {
         }
         total.extra.insert("failing_leaf_programs".into(), json!(FAILING_LEAVES.len()));
     }
+    // a part the outcome does not depend on, in programs that FAIL: the failure must stay the
+    // same failure whatever the part is, and the part must not run
+    {
+        const FAILING_TEMPLATES: &[&str] = &[
+            "1 && @@", "null || @@", "\"a\" && @@", "[] || @@", "{} && @@", "(function() 1) || @@", "[1 && @@][0]", "{a: null || @@}.a",
+            "if 1 then @@ else @@", "(error \"first\") + @@", "[error \"first\", @@][0]", "local x = @@; error \"e\"", "{a: error \"e\", b: @@}.a",
+            "std.length(1, @@)", "(function(x) error \"e\")(@@)", "assert false : \"m\"; @@", "{assert false : \"m\", a: @@, b: 1}.b", "1 < \"a\" || @@",
+        ];
+        for tmpl in FAILING_TEMPLATES {
+            let run = |fill: &str| rt::run_fresh(tmpl.replace("@@", fill).as_bytes(), &RunCfg::default());
+            let base = run("0");
+            let boom = run("(error \"BOOM__\")");
+            let traced = run("std.trace(\"b__\", 0)");
+            total.evaluations += 3;
+            total.states += 1;
+            let case = json!({"type":"eval","source":tmpl.replace("@@", "(error \"BOOM__\")")});
+            if base.outcome.is_value() {
+                total.violation("C04/seed-baseline", format!("`{tmpl}` with 0 should fail but gives {}", base.outcome.short()), case.clone());
+                continue;
+            }
+            // the same failure: error kind and message (spans differ with the length of the part)
+            let key = |o: &rt::Outcome| match o {
+                rt::Outcome::Eval { kind, msg, detail, .. } => format!("{kind}/{msg:?}/{}", detail.split("message: ").nth(1).map(|m| m.split('"').nth(1).unwrap_or("").to_string()).unwrap_or_default()),
+                other => other.exact(),
+            };
+            if key(&boom.outcome) != key(&base.outcome) {
+                total.violation("C04/seed/unused-part-evaluated/in-failing-program", format!("`{tmpl}`: with a harmless part {}, with a failing part {}", base.outcome.short(), boom.outcome.short()), case.clone());
+            }
+            if !traced.traces.is_empty() {
+                total.violation("C04/seed/unused-part-evaluated/in-failing-program", format!("`{tmpl}` evaluates the marked part {} times before failing", traced.traces.len()), case);
+            }
+        }
+        total.extra.insert("failing_templates".into(), json!(FAILING_TEMPLATES.len()));
+    }
     // seeds
     for (tmpl, want) in SEEDS {
+        // the signature names the builtin nearest before the marked part
+        let sig_unused = match tmpl[..tmpl.find("@@").unwrap_or(tmpl.len())].rfind("std.") {
+            Some(i) => format!("C04/seed/unused-part-evaluated/std.{}", tmpl[i + 4..].chars().take_while(|c| c.is_ascii_alphanumeric() || *c == '_').collect::<String>()),
+            None => "C04/seed/unused-part-evaluated".to_string(),
+        };
         let ok_src = tmpl.replace("@@", "0");
         let boom = tmpl.replace("@@", "(error \"BOOM__\")");
         let slow = tmpl.replace("@@", "std.trace(\"b__\", 0)");
@@ -428,11 +470,11 @@ pub fn run(ctx: &Ctx) -> i32 {
         }
         let b2 = rt::run_fresh(boom.as_bytes(), &RunCfg::default());
         if b2.outcome != base.outcome {
-            total.violation("C04/seed/unused-part-evaluated", format!("`{boom}`: {} (with a harmless value instead: {})", b2.outcome.short(), base.outcome.short()), json!({"type":"eval","source":boom}));
+            total.violation(sig_unused.clone(), format!("`{boom}`: {} (with a harmless value instead: {})", b2.outcome.short(), base.outcome.short()), json!({"type":"eval","source":boom}));
         }
         let t = rt::run_fresh(slow.as_bytes(), &RunCfg::default());
         if !t.traces.is_empty() {
-            total.violation("C04/seed/unused-part-evaluated", format!("`{slow}` evaluates the marked part {} times", t.traces.len()), json!({"type":"eval","source":slow}));
+            total.violation(sig_unused.clone(), format!("`{slow}` evaluates the marked part {} times", t.traces.len()), json!({"type":"eval","source":slow}));
         }
     }
     for (src, want) in ONCE_SEEDS {
